@@ -99,9 +99,13 @@ impl Counter {
     }
 
     /// Decrement counter by 1 and return true if crossing limit.
+    ///
+    /// The counter starts at 1, so `inc` reports the limit being hit when the previous value is
+    /// `limit` (new value `limit + 1`); the matching crossing on the way down is therefore the
+    /// decrement whose previous value is `limit + 1`.
     #[inline(always)]
     pub(crate) fn dec(&self) -> bool {
-        self.counter.fetch_sub(1, Ordering::Relaxed) == self.limit
+        self.counter.fetch_sub(1, Ordering::Relaxed) == self.limit.wrapping_add(1)
     }
 
     pub(crate) fn total(&self) -> usize {
